@@ -86,6 +86,23 @@ pub fn replay(kind: &str, a: &[String]) -> i32 {
                 0
             }
         }
+        "c13" => {
+            // c13 <entry> <cfg> <cap> <hex>: print the digest of one corpus case under this variant
+            let entry = Entry::from_name(&a[0]).unwrap();
+            let cfg: u8 = a[1].parse().unwrap();
+            let cap: usize = a[2].parse().unwrap();
+            let data = unhex(&a[3]);
+            let backend = match std::env::var("VERIF_BACKEND").as_deref() {
+                Ok("avx2") => Backend::Avx2,
+                Ok("sse42") => Backend::Sse42,
+                Ok("scalar") => Backend::Scalar,
+                _ => Backend::AsIs,
+            };
+            let mut w = W::new("C13", Tier::Quick, 0, 0, 1);
+            let (o, b) = w.obs(Call { entry, cfg, cap, hplace: Place::End, backend }, &data, Place::End);
+            println!("DIGEST {:016x} {}", o.res.canon().digest(), o.res.show(b));
+            0
+        }
         _ => {
             eprintln!("unknown replay kind {}", kind);
             2
@@ -150,6 +167,9 @@ fn scan_case(w: &mut W, sc: Sc, data: &[u8], place: Place) -> bool {
         w.st.count(&format!("backend_bit_missing:{}", sc.name()), 1);
     }
     let want = scan::expected(sc.class(), buf);
+    if w.st.samples.len() < 8 && w.st.evaluations % 100003 == 7 {
+        w.st.sample(J::obj().set("scanner", J::S(sc.name())).set("class", J::S(format!("{:?}", sc.class()))).set("len", J::U(buf.len() as u64)).set("addr_mod_32", J::U(buf.as_ptr() as usize as u64 % 32)).set("placement", J::S(format!("{:?}", place))).set("input", J::S(esc(buf))).set("stopped_at", J::U(got as u64)).set("first_out_of_class", J::U(want as u64)));
+    }
     if got != want {
         let v = Violation {
             property: "C12".into(),
@@ -583,7 +603,7 @@ fn run_c18(w: &mut W) {
 /// head-room well above 2x; a super-linear change exceeds them by orders of
 /// magnitude at the sizes used.
 pub const C20_READS_PER_BYTE: f64 = 4.0;
-pub const C20_BLOCKS_PER_BYTE: f64 = 1.5;
+pub const C20_BLOCKS_PER_BYTE: f64 = 2.5;
 pub const C20_OPS_PER_BYTE: f64 = 8.0;
 pub const C20_SLACK: f64 = 256.0;
 
